@@ -67,6 +67,7 @@ class Case final : public sim::CaseBase {
     consumer = static_cast<int>(g.Draw(kConsumerCount));
     producer = static_cast<int>(g.Draw(kProducerCount));
     is_void = g.Draw(4) == 3;
+    move_only = !is_void && g.Draw(4) == 0;  // a move-only payload: Result<V, E> cannot be copied
     exec = static_cast<int>(g.Draw(kExecCount));
     tail_get = g.Flip();
     ready_samples = static_cast<int>(g.Draw(3));
@@ -84,7 +85,7 @@ class Case final : public sim::CaseBase {
     j.KV("consumer", kConsumerNames[consumer]);
     j.KV("producer", kProducerNames[producer]);
     j.KV("produced_by", prod_coroutine ? "a coroutine (co_return / throw / stopped executor): completion goes through final_suspend" : "Promise");
-    j.KV("value_type", is_void ? "void" : "Tracked");
+    j.KV("value_type", is_void ? "void" : move_only ? "move-only Tracked" : "Tracked");
     if (consumer == kThenExec || consumer == kDetachExec) {
       j.KV("executor", kExecNames[exec]);
     }
@@ -115,7 +116,12 @@ class Case final : public sim::CaseBase {
     if (is_void) {
       RunT<void>();
     } else {
-      RunT<Tracked>();
+      if (move_only) {
+        SIM_PROBE("move_only_payload");
+        RunT<sim::TrackedMO>();
+      } else {
+        RunT<Tracked>();
+      }
     }
   }
 
@@ -133,7 +139,7 @@ class Case final : public sim::CaseBase {
         if constexpr (std::is_void_v<V>) {
           co_return {};
         } else {
-          co_return Tracked{c->id};
+          co_return V{c->id};
         }
       case kSetError:
         co_return SimError{c->id};
@@ -174,7 +180,7 @@ class Case final : public sim::CaseBase {
         if constexpr (std::is_void_v<V>) {
           std::move(p).Set();
         } else {
-          std::move(p).Set(Tracked{id});
+          std::move(p).Set(V{id});
         }
         break;
       case kSetError:
@@ -486,6 +492,7 @@ class Case final : public sim::CaseBase {
 
   bool prod_coroutine = false;
   int consumer = 0, producer = 0, exec = 0, ready_samples = 0, cons_delay = 0, prod_delay = 0;
+  bool move_only = false;
   bool is_void = false, tail_get = false, consumer_first = false;
   std::uint32_t id = 1, timeout_ns = 0, prod_sleep_ns = 0;
 
